@@ -408,7 +408,13 @@ func main() {
 							if i == 0 {
 								continue // b
 							}
-							args = append(args, src(a))
+							// extra arguments must be integer literals (multipliers, signs)
+							t := strings.ReplaceAll(src(a), " ", "")
+							if _, err := strconv.ParseInt(t, 10, 64); err != nil {
+								call = "?" + src(ce)
+								break
+							}
+							args = append(args, t)
 						}
 					}
 				}
@@ -487,11 +493,14 @@ func main() {
 		}
 		w("  (%s, [%s])%s\n", leanStr(m.pkg+"."+m.fn), strings.Join(ps, ", "), sep)
 	}
-	w("]\n\n/-- `command.Parse`: lower-cased command name ↦ parse function and its extra arguments -/\ndef dispatch : List (String × String × List String) := [\n")
+	w("]\n\n/-- `command.Parse`: lower-cased command name ↦ parse function and its extra arguments -/\ndef dispatch : List (String × String × List Int) := [\n")
 	for i, r := range rows {
 		as := make([]string, len(r.args))
 		for j, a := range r.args {
-			as[j] = leanStr(a)
+			as[j] = a
+			if strings.HasPrefix(a, "-") {
+				as[j] = "(" + a + ")"
+			}
 		}
 		sep := ","
 		if i == len(rows)-1 {
